@@ -369,7 +369,15 @@ class Pool(localbase):
     def disconnect(pool):
         con = pool.con
         pool.con = None
-        if con is not None: con.close()
+        if con is None: return
+        pid = getattr(pool, 'pid', None)
+        if pid is not None and pid != os.getpid():
+            # the connection was opened by the process this one was forked from: it is kept aside, as
+            # connect() does, not closed (closing it is a use of the parent's connection, too)
+            pool.forked_connections.append((con, pid))
+            pool.pid = None
+            return
+        con.close()
 
 class Converter(object):
     EQ = 'EQ'
